@@ -725,9 +725,13 @@ func ruleM6(c *Ctx, id string) {
 					}
 					if cl, isC := rv.(*ssa.Call); isC {
 						if g := staticCallee(cl); g != nil && g.Name() == "Min" && len(cl.Call.Args) == 2 {
-							for _, a := range cl.Call.Args {
+							for i, a := range cl.Call.Args {
 								if k, isk := constIntDeep(cur.S.resolve(a)); isk && k <= wtmax {
-									return // min(q, K)
+									// min(q, K): the request's quantity is clamped
+									if q := qkey(cl.Call.Args[1-i], cur.S, req); q != "" {
+										leaves = append(leaves, leaf{q: q, ok: true})
+									}
+									return
 								}
 							}
 						}
